@@ -145,6 +145,18 @@ class Ctx:
         self.choices[key] = idx
         return idx
 
+    def permute(self, items, name='set-order'):
+        """UNORDERED rule: an arbitrary permutation of `items` (iteration order of a set / listdir / glob)"""
+        import itertools
+        items = list(items)
+        if len(items) <= 1:
+            return items
+        if len(items) > 4:
+            raise OutsideSubset("iteration over an unordered collection of %d elements" % len(items))
+        perms = list(itertools.permutations(range(len(items))))
+        idx = self.choice(name, len(perms))
+        return [items[i] for i in perms[idx]]
+
     def one_of(self, name, alternatives):
         """fork over a list of thunks/values; thunks are called only for the taken alternative"""
         idx = self.choice(name, len(alternatives))
